@@ -49,8 +49,8 @@ Proof.
 Qed.
 
 Section Ask.
-  Variable gt : nat -> nat -> N -> N -> N * list cop.
-  Hypothesis gt_pure : forall x k now prev, snd (gt x k now prev) = [].
+  Variable gt : nmap -> nat -> nat -> N -> N -> N * list cop.
+  Hypothesis gt_pure : forall m x k now prev, snd (gt m x k now prev) = [].
 
   Lemma get_self_ask f s x now s1 : get_self gt f s x now = Some s1 -> ask_rel now s s1.
   Proof.
@@ -141,10 +141,10 @@ End Ask.
 (* ------------------------------------------------------------------ one server cycle *)
 
 Section Cycle.
-  Variable gt : nat -> nat -> N -> N -> N * list cop.
-  Variable pl : nat -> nat -> N -> N -> list cop.
-  Hypothesis gt_pure : forall x k now prev, snd (gt x k now prev) = [].
-  Hypothesis pl_pure : forall x k now st, pl x k now st = [].
+  Variable gt : nmap -> nat -> nat -> N -> N -> N * list cop.
+  Variable pl : nmap -> nat -> nat -> N -> N -> list cop.
+  Hypothesis gt_pure : forall m x k now prev, snd (gt m x k now prev) = [].
+  Hypothesis pl_pure : forall m x k now st, pl m x k now st = [].
 
   (* cycle_exact: when a tree is "pulsed at time now" by the manager -- recalculation sweep, then pulse sweep, as
      ReflectServer does each time it wakes up -- in ANY reachable state: every attached node has been asked, the
